@@ -5,23 +5,24 @@ import "verif/harness/fw"
 // Additions of validation rounds 7 and 8, appended to the rule texts that go into the evidence files.
 func init() {
 	for id, more := range map[string]string{
+		"C04": "Round 9: scripts with Close frames between fragments.",
 		"C01": "plus one long history per mode pair (1200-2400 messages per direction on one connection).",
-		"C02": "plus connections carrying 1000-1800 small operations; in the failed-writer scenario a streamed Write (not only Close) gives up behind the stuck control frame.",
-		"C03": "plus streams of 500-1200 small messages; a Close frame with a malformed payload must not be reported as the peer's close.",
+		"C02": "plus connections carrying 1000-1800 small operations; in the failed-writer scenario a streamed Write (not only Close) gives up behind the stuck control frame. Round 9: programs that end with a malformed Close frame from the peer.",
+		"C03": "plus streams of 500-1200 small messages; a Close frame with a malformed payload must not be reported as the peer's close. Round 9: no violation is reported as the peer's close.",
 		"C05": "plus a writer abandoned in the middle of its message while others write; 'stuck' is decided on progress, not on elapsed time.",
-		"C06": "plus data in flight between the local Close frame and the echo, reasons that are not UTF-8 sent by the library, unsendable arguments on a connection that is closed already.",
+		"C06": "plus data in flight between the local Close frame and the echo, reasons that are not UTF-8 sent by the library, unsendable arguments on a connection that is closed already. Round 9: peer closes delivered before the handshake completed.",
 		"C07": "plus messages consumed without reading io.EOF, failed wsjson decodes before concurrent readers, kept RawMessage results, dictionary probes after a first valid message.",
-		"C08": "plus unterminated stored-block DEFLATE streams at limit+1 and limits near MaxInt64.",
-		"C09": "plus a closer after an unanswerable peer Ping (writers hold the frame lock for > 5 s) and CloseRead called on a connection that is closed already.",
-		"C10": "plus reads that start with part of the next frame header already buffered, and calls on a finished message's reader / writer after its context was cancelled.",
+		"C08": "plus unterminated stored-block DEFLATE streams at limit+1 and limits near MaxInt64. Round 9: bombs read through NetConn with a 4 KiB buffer.",
+		"C09": "plus a closer after an unanswerable peer Ping (writers hold the frame lock for > 5 s) and CloseRead called on a connection that is closed already. Round 9: a closer after a read past io.EOF.",
+		"C10": "plus reads that start with part of the next frame header already buffered, and calls on a finished message's reader / writer after its context was cancelled. Round 9: a read blocked behind a final DEFLATE block.",
 		"C11": "plus multi-line Connection / Upgrade values whose first line has the token's length, and server subprotocol lists that repeat a name.",
-		"C12": "plus wildcards in the middle of a pattern and a U+0130 look-alike of a Host containing the letter i.",
-		"C13": "plus other spellings of the right accept value and caller headers named like the handshake's own.",
-		"C14": "plus other spellings of window bits, empty extension parameters, uncompressed messages between compressed ones, an exchange reaching back a whole window.",
-		"C15": "plus 600-1500 Ping rounds and > 1000 received Pings on one connection, Pings between the fragments behind a final DEFLATE block, Pings more than 5 s apart inside one reading call.",
-		"C18": "plus streams of 1500-3000 writes, a peer that is gone right after its Close frame, a deadline during a Read blocked in a partly buffered header.",
-		"C19": "plus 1200 values per connection, concurrent large writes through slow transports, documents another parser might let through (BOM, NUL, comments ...).",
-		"C20": "plus closers called while an application Write is stuck in a lingering transport write.",
+		"C12": "plus wildcards in the middle of a pattern and a U+0130 look-alike of a Host containing the letter i. Round 9: no-Origin requests with Referer / forwarding headers.",
+		"C13": "plus other spellings of the right accept value and caller headers named like the handshake's own. Round 9: the dialling process has been a server before; takeover mode offers takeover.",
+		"C14": "plus other spellings of window bits, empty extension parameters, uncompressed messages between compressed ones, an exchange reaching back a whole window. Round 9: final-block messages inside the exchange.",
+		"C15": "plus 600-1500 Ping rounds and > 1000 received Pings on one connection, Pings between the fragments behind a final DEFLATE block, Pings more than 5 s apart inside one reading call. Round 9: ping streams that do not end with a Ping, last frames in one write.",
+		"C18": "plus streams of 1500-3000 writes, a peer that is gone right after its Close frame, a deadline during a Read blocked in a partly buffered header. Round 9: empty message of the wrong type.",
+		"C19": "plus 1200 values per connection, concurrent large writes through slow transports, documents another parser might let through (BOM, NUL, comments ...). Round 9: writes after another connection's write failed at the transport.",
+		"C20": "plus closers called while an application Write is stuck in a lingering transport write. Round 9: a second closer while the first waits for a peer that never answers.",
 	} {
 		if p := fw.Lookup(id); p != nil {
 			p.Rule += " Rounds 7-8: " + more
